@@ -251,7 +251,7 @@ theorem setSize_static (b : SecBuf) (v : BitVec 64) :
 theorem insertFinish_static (b : SecBuf) (ns n : BitVec 64) :
     (b.insertFinish ns n).stype = b.stype ∧ (b.insertFinish ns n).entSize = b.entSize := by
   obtain ⟨h1, h2⟩ := setSize_static b ns
-  unfold SecBuf.insertFinish
+  rw [SecBuf.insertFinish_hand]
   by_cases ht : (b.setSize ns).translatorEmpty = true
   · simp only [ht, if_true]; exact ⟨h1, h2⟩
   · simp only [ht, if_false]; exact ⟨h1, h2⟩
@@ -1034,7 +1034,8 @@ theorem swapLoop_spec (c : Cls) (k : RelKind) (enc : Enc) (first second : BitVec
       rw [hget, map_take_set _ _ _ hlt] at t1
       obtain ⟨b2, h2, t2⟩ := ih (i + 1) b1 cur1 (by omega) (by omega) t1
       refine ⟨b2, ?_, t2⟩
-      simp only [h1, ofNat32_succ]
+      have hinc : reloc_swap_i_incr (BitVec.ofNat 32 i) = BitVec.ofNat 32 (i + 1) := ofNat32_succ i
+      simp only [h1, hinc]
       exact h2
     · simp only [hlt, decide_false, Bool.not_false, if_true, pure, Except.pure]
       refine ⟨b, rfl, ?_⟩
